@@ -231,8 +231,8 @@ theorem startTimer_spec (c : Cfg) (s : St) (q : String) (tev : TEvent) (item : D
 theorem enterState_ES (c : Cfg) (s : St) (d : EvData) (q : String) (hi : Idle s) :
     ES c s (enterState c s d q) := by
   unfold enterState
-  have f1 := frame_runEnter c { s with state := some q, epoch := s.epoch + 1 } q
-  generalize runEnter c { s with state := some q, epoch := s.epoch + 1 } q = s1 at f1
+  have f1 := frame_runEnter c (s.enter q) q
+  generalize runEnter c (s.enter q) q = s1 at f1
   have hi1 : Idle s1 := idle_of_frame f1 hi
   have base : ES c s s1 := ⟨f1.fires, f1.now, f1.stopped, f1.epoch, .inl hi1⟩
   dsimp only
@@ -255,7 +255,7 @@ theorem enterState_ES (c : Cfg) (s : St) (d : EvData) (q : String) (hi : Idle s)
         · exact hf.2.2.1.symm
         · rw [hf.1]; show s1.now < s1.now + n; omega
         · rw [hf.2.1]; exact hs
-        · rw [hf.2.2.2.1, f1.state]
+        · rw [hf.2.2.2.1, f1.state]; rfl
         · rw [hf.2.2.2.2.1]; exact hn.2
 
 theorem frame_exitCur (s : St) : Frame s (exitCur s) := by
@@ -265,7 +265,7 @@ theorem frame_exitCur (s : St) : Frame s (exitCur s) := by
 
 theorem frame_popNext (s : St) (d : EvData) (q : String) : Frame s (popNext s d q).1 := by
   unfold popNext; split
-  · exact Frame.trans (b := setCtx { s with next := none } _) ⟨rfl, rfl, rfl, rfl, rfl, rfl, rfl, rfl⟩
+  · exact Frame.trans (b := setCtx (s.setNextEv none) _) ⟨rfl, rfl, rfl, rfl, rfl, rfl, rfl, rfl⟩
       (frame_exitCur _)
   · exact Frame.refl _
 
@@ -963,5 +963,208 @@ theorem inv_run (c : Cfg) : ∀ (ops : List Op) (s : St), Inv c s → Inv c (run
   induction ops with
   | nil => intro s i; exact i
   | cons op ops ih => intro s i; exact ih _ (inv_step i op)
+
+/-! ### what `_ctx_event` may assume about the block (used by the tie to the translated source) -/
+
+/-- between events of a running simulation: no chained event is pending, and an initialised
+    block has a state -/
+def Quiet (s : St) : Prop :=
+  s.failed = none → (s.next = none ∧ (s.out.isUndef = false → s.state ≠ none))
+
+theorem evalCond_fields (s : St) (d : EvData) (cd : Cond) (s' : St) (b : Bool)
+    (h : evalCond s d cd = some (s', b)) : s'.next = s.next ∧ s'.state = s.state := by
+  cases cd <;> simp only [evalCond] at h
+  · cases h; exact ⟨rfl, rfl⟩
+  · cases h; exact ⟨rfl, rfl⟩
+  · cases h; exact ⟨rfl, rfl⟩
+  · split at h
+    · cases h; exact ⟨rfl, rfl⟩
+    · cases h
+
+theorem evalConds_fields (d : EvData) (cs : List Cond) : ∀ (s s' : St) (b : Bool),
+    evalConds s d cs = some (s', b) → s'.next = s.next ∧ s'.state = s.state := by
+  induction cs with
+  | nil => intro s s' b h; simp only [evalConds] at h; cases h; exact ⟨rfl, rfl⟩
+  | cons cd cs ih =>
+    intro s s' b h
+    simp only [evalConds] at h
+    split at h
+    · cases h
+    · next s1 b1 h1 =>
+      split at h
+      · cases h
+      · next s2 b2 h2 =>
+        cases h
+        have a := evalCond_fields s d cd s1 b1 h1
+        have b := ih s1 _ b2 h2
+        exact ⟨b.1.trans a.1, b.2.trans a.2⟩
+
+theorem resolve_next (c : Cfg) (s : St) (e : TEvent) (d : EvData) :
+    (resolve c s e d).1.next = s.next := by
+  unfold resolve
+  split
+  · split <;> rfl
+  · split
+    · rfl
+    · split
+      · rfl
+      · split
+        · rfl
+        · split
+          · rfl
+          · split
+            · rfl
+            · next s' ok h => split <;> exact (evalConds_fields _ _ _ _ _ h).1
+
+theorem stopTimer_fields (s : St) : (stopTimer s).failed = s.failed ∧ (stopTimer s).next = s.next ∧
+    (stopTimer s).out = s.out ∧ (stopTimer s).state = s.state := by
+  unfold stopTimer
+  split
+  · exact ⟨rfl, rfl, rfl, rfl⟩
+  · dsimp only; split <;> exact ⟨rfl, rfl, rfl, rfl⟩
+
+theorem leave_fields (s : St) : (leave s).failed = s.failed ∧ (leave s).next = s.next := by
+  unfold leave
+  split
+  · exact ⟨rfl, rfl⟩
+  · split
+    · exact ⟨(stopTimer_fields _).1, (stopTimer_fields _).2.1⟩
+    · exact ⟨rfl, rfl⟩
+
+theorem fail_fields (s : St) (k : ErrKind) : (s.fail k).next = s.next ∧ (s.fail k).state = s.state := by
+  unfold St.fail; split <;> exact ⟨rfl, rfl⟩
+
+theorem finish_next (c : Cfg) (s : St) : (finish c s).next = s.next := by
+  unfold finish
+  split
+  · exact (fail_fields _ _).1
+  · unfold sendOnEnter setOut
+    split <;> split <;> rfl
+
+theorem enterState_state (c : Cfg) (s : St) (d : EvData) (q : String) :
+    (enterState c s d q).state = some q := by
+  unfold enterState
+  have f1 := frame_runEnter c (s.enter q) q
+  dsimp only
+  split
+  · exact f1.state
+  · split
+    · exact f1.state
+    · next tev dflt _ =>
+      rcases startTimer_spec c (runEnter c (s.enter q) q) q tev d.dur with f2 | ⟨_, n, _, heq⟩
+      · exact f2.state.trans f1.state
+      · rw [heq, (setTimer_fields _ n tev).2.2.2.1]; exact f1.state
+
+theorem enterLoop_quiet (c : Cfg) : ∀ (fuel : Nat) (s : St) (d : EvData) (q : String),
+    (enterLoop c fuel s d q).failed = none →
+    (enterLoop c fuel s d q).next = none ∧ (enterLoop c fuel s d q).state ≠ none := by
+  intro fuel
+  induction fuel with
+  | zero => intro s d q h; unfold enterLoop at h; exact absurd h (fail_failed _ _)
+  | succ n ih =>
+    intro s d q
+    unfold enterLoop
+    dsimp only
+    generalize popNext s d q = r
+    have hst := enterState_state c r.1 r.2.1 r.2.2
+    generalize enterState c r.1 r.2.1 r.2.2 = s2 at hst
+    split
+    · next hf => intro h; rw [h] at hf; simp at hf
+    · split
+      · exact ih _ _ _
+      · next hn =>
+        intro _
+        refine ⟨?_, ?_⟩
+        · rw [finish_next]; cases h : s2.next with
+          | none => rfl
+          | some x => rw [h] at hn; simp at hn
+        · rw [(frame_finish c s2).state, hst]; simp
+
+theorem quiet_ctxEvent {c : Cfg} {s : St} (hq : Quiet s) (hf : s.failed = none) (e : TEvent) (d : EvData) :
+    Quiet (ctxEvent c s e d).1 := by
+  have hs := hq hf
+  unfold ctxEvent
+  have fr := (frame_setCtx s d).trans (frame_resolve c (setCtx s d) e d)
+  have kp := resolve_keeps c (setCtx s d) e d
+  have kn := resolve_next c (setCtx s d) e d
+  have base : Quiet (resolve c (setCtx s d) e d).1 := by
+    intro _
+    refine ⟨kn.trans hs.1, ?_⟩
+    rw [kp.1, fr.state]; exact hs.2
+  split
+  · next s1 heq => rw [heq] at base; exact base
+  · next s1 k heq => intro h; exact absurd h (fail_failed _ _)
+  · next s1 heq => rw [heq] at base; exact base
+  · next s1 q heq =>
+    dsimp only
+    split
+    · next k hk => intro h; rw [hk] at h; cases h
+    · next hnf =>
+      intro _
+      have := enterLoop_quiet c c.tbl.chainLimit (leave s1) d q hnf
+      exact ⟨this.1, fun _ => this.2⟩
+
+theorem quiet_deliver {c : Cfg} {s : St} (hq : Quiet s) (hf : s.failed = none) (e : TEvent) (d : EvData) :
+    Quiet (deliver c s e d).1 := by
+  rcases deliver_eq c s e d with ⟨heq, _⟩ | ⟨_, _, heq⟩
+  · rw [heq]; exact quiet_ctxEvent hq hf e d
+  · rw [heq]; intro h; exact absurd h (fail_failed _ _)
+
+theorem quiet_advanceAux (c : Cfg) (t : Nat) (strict : Bool) : ∀ (fuel : Nat) (s : St),
+    Quiet s → Quiet (advanceAux c fuel s t strict) := by
+  intro fuel
+  induction fuel with
+  | zero => intro s _; unfold advanceAux; intro h; exact absurd h (fail_failed _ _)
+  | succ n ih =>
+    intro s hq
+    unfold advanceAux
+    split
+    · exact hq
+    · next hf =>
+      split
+      · exact hq
+      · next h _ =>
+        apply ih
+        unfold fire
+        exact quiet_deliver (s := popTimer s h) hq (isSome_false_none hf) _ _
+
+theorem quiet_step {c : Cfg} {s : St} (hq : Quiet s) (op : Op) : Quiet (step c s op).1 := by
+  cases op with
+  | stop =>
+    show Quiet { stopTimer s with stopped := true }
+    have f := stopTimer_fields s
+    intro h
+    have h' : s.failed = none := f.1 ▸ h
+    have := hq h'
+    refine ⟨f.2.1.trans this.1, ?_⟩
+    show (stopTimer s).out.isUndef = false → (stopTimer s).state ≠ none
+    rw [f.2.2.1, f.2.2.2]; exact this.2
+  | advance t =>
+    simp only [step]
+    split
+    · exact hq
+    · exact quiet_advanceAux c t false _ s hq
+  | gate b => exact hq
+  | init =>
+    simp only [step]
+    split
+    · exact hq
+    · next hf =>
+      unfold initOp
+      exact quiet_deliver (s := { s with input := c.initInput }) hq (isSome_false_none hf) _ _
+  | ev t pl e d =>
+    simp only [step]
+    split
+    · exact hq
+    · have q1 := quiet_advanceAux c t (pl == .before) ((t - s.now) + s.timers.length + 2) s hq
+      split
+      · exact q1
+      · next hf => exact quiet_deliver q1 (isSome_false_none hf) _ _
+
+theorem quiet_run (c : Cfg) : ∀ (ops : List Op) (s : St), Quiet s → Quiet (run c s ops) := by
+  intro ops
+  induction ops with
+  | nil => intro s h; exact h
+  | cons op ops ih => intro s h; exact ih _ (quiet_step h op)
 
 end Edzed.FsmTimer
